@@ -465,6 +465,10 @@ func newObjectCache(pkgs []*packages.Package) *objectCache {
 // get converts a Go object into a Wire structure. It may return a *Provider, an
 // *IfaceBinding, a *ProviderSet, a *Value, or a []*Field.
 func (oc *objectCache) get(obj types.Object) (val interface{}, errs []error) {
+	if obj.Pkg() == nil {
+		// Universe objects (nil, true, len, ...) are neither providers nor provider sets.
+		return nil, []error{fmt.Errorf("%v is not a provider or a provider set", obj)}
+	}
 	ref := objRef{
 		importPath: obj.Pkg().Path(),
 		name:       obj.Name(),
@@ -481,7 +485,8 @@ func (oc *objectCache) get(obj types.Object) (val interface{}, errs []error) {
 	switch obj := obj.(type) {
 	case *types.Var:
 		spec := oc.varDecl(obj)
-		if spec == nil || len(spec.Values) == 0 {
+		if spec == nil || len(spec.Values) != len(spec.Names) {
+			// No initializer, or one call initializing several variables.
 			return nil, []error{fmt.Errorf("%v is not a provider or a provider set", obj)}
 		}
 		var i int
